@@ -49,7 +49,7 @@ theorem init_filled (v : Variant) (i : Nat) : ((PCol.init v).vt i).filled = 1 :=
 
 /-! ## tier selection -/
 
-/-- `claim_node`'s tier (the first table whose `value_size(NoHash)` admits the packed node, else the multipart table)
+/-- `claim_node`'s tier (the first table whose `value_size(NoHash)` is at least the packed node size, else the multipart table)
     satisfies the `assert!` of `overwrite_chain` and the "long value" condition of the multipart table. -/
 theorem node_writeOk (rc : Bool) (t : VT) (v : Bytes)
     (hcfg : SameCfg (tableOfTier rc (tierOfLen rc .noHash v.length)) t) : WriteOk t .noHash v := by
